@@ -485,16 +485,16 @@ Inductive item : Type :=
 | RPanic (at_op : nat) (e : err).
 
 (* one provider = its operations; instantiated for the binary and the ternary form *)
-Record prov (S : Type) : Type := mkProv {
-  p_default : S;
-  p_init : S -> S -> S -> S * S * S;
-  p_merge : S -> S -> S -> res (S * S * S);
-  p_insert : S -> nat -> nat -> nat -> res (S * bool);
-  p_contains : S -> nat -> nat -> nat -> res bool;
-  p_read : S -> res (list view)
+Record prov (St : Type) : Type := mkProv {
+  p_default : St;
+  p_init : St -> St -> St -> St * St * St;
+  p_merge : St -> St -> St -> res (St * St * St);
+  p_insert : St -> nat -> nat -> nat -> res (St * bool);
+  p_contains : St -> nat -> nat -> nat -> res bool;
+  p_read : St -> res (list view)
 }.
-Arguments p_default {S}. Arguments p_init {S}. Arguments p_merge {S}.
-Arguments p_insert {S}. Arguments p_contains {S}. Arguments p_read {S}.
+Arguments p_default {St}. Arguments p_init {St}. Arguments p_merge {St}.
+Arguments p_insert {St}. Arguments p_contains {St}. Arguments p_read {St}.
 
 Definition bin_prov (dom : nat) : prov common :=
   mkProv common c_default c_init c_merge (fun c _ x y => c_insert c x y) (fun c _ x y => c_contains c x y) (read_bin dom).
@@ -502,15 +502,15 @@ Definition bin_prov (dom : nat) : prov common :=
 Definition ter_prov (has1 has2 : bool) (dom kdom : nat) : prov tern :=
   mkProv tern (t_default has1 has2) (fun n d t => (n, d, t)) t_merge t_insert t_contains (read_ter dom kdom).
 
-Record pstate (S : Type) : Type := mkPS { s_stored : S; s_new : S; s_delta : S; s_total : S }.
-Arguments mkPS {S}. Arguments s_stored {S}. Arguments s_new {S}. Arguments s_delta {S}. Arguments s_total {S}.
+Record pstate (St : Type) : Type := mkPS { s_stored : St; s_new : St; s_delta : St; s_total : St }.
+Arguments mkPS {St}. Arguments s_stored {St}. Arguments s_new {St}. Arguments s_delta {St}. Arguments s_total {St}.
 
-Definition ps_init {S} (P : prov S) : pstate S := mkPS (p_default P) (p_default P) (p_default P) (p_default P).
+Definition ps_init {St} (P : prov St) : pstate St := mkPS (p_default P) (p_default P) (p_default P) (p_default P).
 
-Definition read_both {S} (P : prov S) (st : pstate S) : res item :=
+Definition read_both {St} (P : prov St) (st : pstate St) : res item :=
   do d <- p_read P (s_delta st); do t <- p_read P (s_total st); Ok (RRead d t).
 
-Definition step {S} (P : prov S) (st : pstate S) (o : op) : res (pstate S * item) :=
+Definition step {St} (P : prov St) (st : pstate St) (o : op) : res (pstate St * item) :=
   match o with
   | OStart =>
     let '(n, d, t) := p_init P (p_default P) (s_stored st) (p_default P) in
@@ -533,7 +533,7 @@ Definition step {S} (P : prov S) (st : pstate S) (o : op) : res (pstate S * item
     Ok (mkPS (s_stored st) n (s_delta st) (s_total st), RIns b)
   end.
 
-Fixpoint run_hist {S} (P : prov S) (st : pstate S) (ops : list op) (i : nat) (acc : list item) : list item :=
+Fixpoint run_hist {St} (P : prov St) (st : pstate St) (ops : list op) (i : nat) (acc : list item) : list item :=
   match ops with
   | [] => rev acc
   | o :: rest =>
